@@ -228,7 +228,7 @@ func main() {
 			if err != nil || fi.IsDir() || !strings.HasSuffix(path, ".go.in") {
 				return nil
 			}
-			if *uses != "" && !accessorUsed(path, usesSrc) {
+			if *uses != "" && !accessorUsed(path, usesSrc, filepath.Base(filepath.Dir(*specFile))) {
 				return nil
 			}
 			rel, _ := filepath.Rel(*access, path)
@@ -249,9 +249,18 @@ func main() {
 }
 
 // accessorUsed: does the harness source mention a Verif* name the accessor file declares?
-func accessorUsed(file string, src []byte) bool {
+func accessorUsed(file string, src []byte, harness string) bool {
 	b, err := os.ReadFile(file)
 	if err != nil {
+		return false
+	}
+	// an accessor that is not called by name (an init hook) names its harnesses: "// verif:for c20"
+	if m := accessorFor.FindSubmatch(b); m != nil {
+		for _, id := range strings.Split(string(m[1]), ",") {
+			if strings.TrimSpace(id) == harness {
+				return true
+			}
+		}
 		return false
 	}
 	for _, m := range accessorName.FindAllSubmatch(b, -1) {
@@ -261,6 +270,8 @@ func accessorUsed(file string, src []byte) bool {
 	}
 	return false
 }
+
+var accessorFor = regexp.MustCompile(`(?m)^// verif:for ([a-z0-9, ]+)$`)
 
 var accessorName = regexp.MustCompile(`(?m)^func (?:\([^)]*\) )?(Verif[A-Za-z0-9_]*)`)
 
